@@ -34,7 +34,8 @@ var (
 	logLfsSearchArgs = []string{
 		"--no-ext-diff",
 		"--no-textconv",
-		"--root",        // a root commit's files are additions too, whatever log.showRoot says
+		"--root",          // a root commit's files are additions too, whatever log.showRoot says
+		"--no-relative",   // and so are files outside the current directory, whatever diff.relative says
 		"--text",          // pointers are text even where attributes say "-diff" or "binary"
 		"--src-prefix=a/", // the parser relies on the default prefixes, whatever
 		"--dst-prefix=b/", // diff.noprefix or diff.mnemonicPrefix say
